@@ -642,15 +642,19 @@ Proof.
   assert (R : realb (token c) = true) by (rewrite Tk; reflexivity).
   destruct (token (skip 1 c)) as [| | | | | |k|]; try (apply good_raise; exact Hc).
   destruct k; try (apply good_raise; exact Hc).
-  apply (good_bind (fun x : consmap * bool * ctx => ltl (skip 2 c) (snd x)) (nb (skip 2 c))).
-  - apply constraints_inner_good; [pose proof (len_skip_le 2 c); unfold local_fuel, len in *; lia|apply lel_refl].
-  - intros c' Hc'. unfold nb in *. pose proof (le_sg _ _ (skip_le 2 c)). pose proof (le_sg _ _ (proj1 Hc)). lia.
+  set (c2 := skip 1 (skip 1 c)).
+  assert (L2 : len c2 <= len c) by (pose proof (len_skip_le 1 c); pose proof (len_skip_le 1 (skip 1 c)); unfold c2; lia).
+  assert (S2 : lel c c2) by (eapply lel_trans; apply skip_lel).
+  assert (E2 : le_ctx c c2) by (eapply le_trans; apply skip_le).
+  apply (good_bind (fun x : consmap * bool * ctx => ltl c2 (snd x)) (nb c2)).
+  - apply constraints_inner_good; [unfold local_fuel, len in *; lia|apply lel_refl].
+  - intros c' Hc'. unfold nb in *. pose proof (le_sg _ _ E2). pose proof (le_sg _ _ (proj1 Hc)). lia.
   - intros [[m' again] c1] H1. cbn [snd] in H1.
     assert (H2 : ltl c0 c1).
-    { eapply lel_ltl_trans; [exact Hc|]. eapply lel_ltl_trans; [apply skip_lel|exact H1]. }
+    { eapply lel_ltl_trans; [exact Hc|]. eapply lel_ltl_trans; [exact S2|exact H1]. }
     destruct again; [|exact H2].
     eapply good_weaken; [apply (IH c0 c1 m')| |].
-    + destruct H1 as [_ X]. pose proof (len_skip_le 2 c). lia.
+    + destruct H1 as [_ X]. lia.
     + apply ltl_lel. exact H2.
     + trivial.
     + trivial.
